@@ -262,7 +262,9 @@ def replay_path(args):
                 L_ = s.L
                 via = [("islice-with-start", lambda h=s.h[hid]: L_.list(L_.islice(h, 1, 2))), ("nlargest", lambda h=s.h[hid]: L_.nlargest(h, 1))]
                 if ukind != "sync" and hasattr(s.h[hid], "__anext__"):
-                    def reborrow(h=s.h[hid]):
+                    ended_itself = hid in closed or last_t["shut"][hid - 1]
+
+                    def reborrow(h=s.h[hid], ended_itself=ended_itself):
                         async def go():
                             nb = L_.borrow(h)
                             out_ = []
@@ -270,8 +272,11 @@ def replay_path(args):
                                 out_.append(await nb.__anext__())
                             except StopAsyncIteration:
                                 pass
+                            # asend/athrow are judged for handles that were ended themselves (closed, or their block
+                            # left): a handle that merely sits on top of an ended one was never closed, and neither
+                            # property says anything about what sending into it does (same rule as below)
                             for meth_, arg_ in (("asend", (None,)), ("athrow", (BlockError(),))):
-                                if hasattr(nb, meth_):
+                                if ended_itself and hasattr(nb, meth_):
                                     try:
                                         out_.append(await getattr(nb, meth_)(*arg_))
                                     except (StopAsyncIteration, BlockError):
